@@ -192,3 +192,10 @@ def area_template(coll, width=2):
         return t in ('sum(EACH($1 in %s;len($1)))' % coll, 'sum(EACH($1 in %s;len($1.__bytearray__())))' % coll,
                      'sum(map(len, %s))' % coll, 'len(EACH($1 in %s;$1.__bytearray__()))' % coll)
     return [Pred('LEN(%d; members of %s)' % (width, coll), count), Pred('EACH(x in %s; x.__bytearray__())' % coll, members)]
+
+
+def b2i_forms(owner, x):
+    """Value texts that denote the big-endian integer of the octets x: the library helper (a thin wrapper, checked by C09) and the
+    builtin it wraps."""
+    return ['%s.bytes_to_int(%s)' % (owner, x), "int.from_bytes(%s, 'big')" % x, "int.from_bytes(%s, byteorder='big')" % x,
+            "%s.bytes_to_int(%s, 'big')" % (owner, x)]
